@@ -551,7 +551,7 @@ Section Inv.
   Qed.
 End Inv.
 
-(* ---------------------------------------------------------------- the race (finding D13) *)
+(* ---------------------------------------------------------------- the race of the direct-iteration variant (former finding D13, repaired in /repo) *)
 (* in the fine-grained model: for ANY configuration with a lookup loop that iterates the deque
    itself, two threads and one schedule make a call raise *)
 Lemma race_fine cfg f conv s :
